@@ -6,7 +6,6 @@ use std::cell::RefCell;
 
 pub struct Sources {
   pub a: Settings,
-  pub b: Settings,
   pub c: Settings,
   pub home: PathBuf,
   pub data: PathBuf,
@@ -34,23 +33,39 @@ fn vreplay_settings() {
     return;
   };
   let v: serde_json::Value = serde_json::from_str(&std::fs::read_to_string(path).unwrap()).unwrap();
-  let get = |k: &str| -> Settings { serde_json::from_value(v[k].clone()).unwrap() };
-  let (a, b, c) = (get("a"), get("b"), get("c"));
-  if v["mode"] == "or" {
-    println!("SETTINGS {}", serde_json::to_string(&a.or(b)).unwrap());
+  if v["mode"] == "from_options" {
+    use super::options_extract::{FromOptions, Options as RealOptions};
+    let o: RealOptions = serde_json::from_value(v["options"].clone()).unwrap();
+    println!("SETTINGS {}", serde_json::to_string(&<Settings as FromOptions>::from_options(o)).unwrap());
     return;
   }
+  let get = |k: &str| -> Settings { serde_json::from_value(v[k].clone()).unwrap() };
+  let env: BTreeMap<String, String> = v["env"]
+    .as_object()
+    .map(|m| m.iter().map(|(k, x)| (k.clone(), x.as_str().unwrap().to_string())).collect())
+    .unwrap_or_default();
+  if v["mode"] == "from_env" {
+    match Settings::from_env(env) {
+      Ok(s) => println!("SETTINGS {}", serde_json::to_string(&s).unwrap()),
+      Err(e) => println!("SETTINGS-ERR {}", e),
+    }
+    return;
+  }
+  if v["mode"] == "or" {
+    println!("SETTINGS {}", serde_json::to_string(&get("a").or(get("b"))).unwrap());
+    return;
+  }
+  let (a, c) = (get("a"), get("c"));
   SOURCES.with(|s| {
     *s.borrow_mut() = Some(Sources {
       a,
-      b,
       c,
       home: v["home"].as_str().unwrap().into(),
       data: v["data"].as_str().unwrap().into(),
       mem: v["mem"].as_u64().unwrap(),
     })
   });
-  match Settings::merge(Options { placeholder: 0 }, BTreeMap::new()) {
+  match Settings::merge(Options { placeholder: 0 }, env) {
     Ok(s) => println!("SETTINGS {}", serde_json::to_string(&s).unwrap()),
     Err(e) => println!("SETTINGS-ERR {}", e),
   }
